@@ -89,6 +89,7 @@ package bep44
 // C12 / C13: Wrapper.Put hands an item to the store only if it is valid and, when an item is already stored
 // under its target, only if that item may be replaced by it; a rejected put does not touch the store.
 //@ func (*dht/bep44.Wrapper).Put
+//@   option records puterr
 //@   requires nonnil: w != nil && i != nil && w.s != nil
 //@   requires unlocked: !held(w.mu)
 //@   requires globals: globals()
@@ -106,6 +107,7 @@ package bep44
 
 // C13: items older than the expiry are not served
 //@ func (*dht/bep44.Wrapper).Get
+//@   option records gotitem
 //@   requires nonnil: w != nil && w.s != nil
 //@   requires unlocked: !held(w.mu)
 //@   requires globals: ErrItemNotFound != nil
